@@ -18,13 +18,13 @@ from vlib.core import Stage, fail
 ID = "C08"
 MANIFEST = {
     "category": "exploration",
-    "text": "Generated-input search: Boolean expressions over up to 6 format-constraint keys (n-ary U/O/X, nesting, every operator spelling, whitespace, redundant brackets) x all 2^n truth assignments, through evaluate_format_constraint_tree, format_constraint_evaluation with DictBasedFcEvaluator and with a plain FcEvaluator subclass (sync and async evaluate_ methods returning (False, None)). The result must equal the Boolean value of the AST and carry an error message iff it is unfulfilled; None and '' must give (True, None).",
+    "text": "Generated-input search: Boolean expressions over up to 6 format-constraint keys (n-ary U/O/X, nesting, every operator spelling, whitespace, redundant brackets) x all 2^n truth assignments, through evaluate_format_constraint_tree, format_constraint_evaluation with DictBasedFcEvaluator with a plain FcEvaluator subclass (sync and async evaluate_ methods returning (False, None)) and with one whose coroutines really suspend and complete in reverse order. The result must equal the Boolean value of the AST and carry an error message iff it is unfulfilled; None and '' must give (True, None).",
     "note": "Trusted: ref.bool_eval and the generator. Precondition of the statement is built into the generator: unfulfilled single constraints carry a message (or get the default one), fulfilled ones carry none. Bounded: <= 12/24 atoms, <= 6 keys.",
     "technique": "property-based testing against a Boolean reference evaluator, exhaustive over truth assignments per expression",
 }
 LEVEL = "exploration"
 RULE = (
-    "Boolean expression over fc keys x all truth assignments x 3 evaluation routes; one unit = (string, truth "
+    "Boolean expression over fc keys x all truth assignments x 4 evaluation routes; one unit = (string, truth "
     "assignment); non-trivial = nesting depth >= 2 with at least two different operators and both truth values "
     "present in the assignment; distinct by (string, assignment)"
 )
@@ -37,8 +37,14 @@ KEYS = ["901", "902", "903", "950", "998", "999"]
 _EVALUATOR_CACHE = {}
 
 
-def _plain_evaluator(truth):
-    """a user-style FcEvaluator: evaluate_<key> methods (every second one async) that return (ok, None)"""
+def _plain_evaluator(truth, yielding=False):
+    """
+    a user-style FcEvaluator: evaluate_<key> methods (every second one async) that return (ok, None).
+    yielding=True: every method is a coroutine that suspends, the earlier keys longer than the later ones, so that the
+    evaluations complete in the reverse order of their start.
+    """
+    import asyncio
+
     from ahbicht.content_evaluation.fc_evaluators import FcEvaluator
     from ahbicht.content_evaluation.rc_evaluators import DictBasedRcEvaluator
     from ahbicht.expressions.hints_provider import DictBasedHintsProvider
@@ -50,7 +56,14 @@ def _plain_evaluator(truth):
         edifact_format_version = sut.VER
 
     for index, (key, value) in enumerate(sorted(truth.items())):
-        if index % 2:
+        if yielding:
+
+            async def method(self, entered_input, value=value, pauses=2 * (len(truth) - index)):  # pylint:disable=unused-argument
+                for _ in range(pauses):
+                    await asyncio.sleep(0)
+                return EvaluatedFormatConstraint(value, None)
+
+        elif index % 2:
 
             async def method(self, entered_input, value=value):  # pylint:disable=unused-argument
                 return EvaluatedFormatConstraint(value, None)
@@ -93,6 +106,8 @@ def check(case):
         routes.append(("dict-evaluator", sut.call(api.format_constraint_evaluation, text), "format_constraints_fulfilled"))
         sut.configure(_plain_evaluator(truth))
         routes.append(("plain-evaluator", sut.call(api.format_constraint_evaluation, text), "format_constraints_fulfilled"))
+        sut.configure(_plain_evaluator(truth, yielding=True))
+        routes.append(("yielding-evaluator", sut.call(api.format_constraint_evaluation, text), "format_constraints_fulfilled"))
         for name, res, attr in routes:
             if not res.ok:
                 fail("raises", f"{name}: {text!r} under {truth} raised {res!r}")
